@@ -84,6 +84,15 @@ class C09(Check):
             fixed.append({"kind": "setup-py-manifest-and-source", "world_spec": {"files": files}, "include": order, "plugins": False,
                           "path_include": None, "extra_findings": {}, "sched": {"seed": 0, "policy": "fifo", "line_p": 0.0}, "workers": None,
                           "enum_seed": None})
+        # a file no codemod can process: each codemod of the batch must fail on it exactly as it does alone
+        BAD = [{"path": "pkg/broken_syntax.py", "raw": {"t": "def broken(:\n    return f'x'\n"}}, {"path": "pkg/broken_bytes.py", "raw": {"b": "/v8AZGVmIGYoeD1bXSk6IHBhc3MK"}}]
+        good = [{"path": "pkg/a.py", "raw": {"t": "def f(x=[]):\n    return f'hello'\n\nassert (1, 2)\n"}},
+                {"path": "app/b.py", "raw": {"t": "import requests\nNAMES = set([1, 2])\nrequests.get('https://example.com')\nprint(f'abc')\n"}}]
+        for inc in (["pixee:python/fix-assert-tuple", "pixee:python/remove-unnecessary-f-str", "pixee:python/fix-mutable-params"],
+                    ["pixee:python/use-set-literal", "pixee:python/add-requests-timeouts", "pixee:python/remove-unnecessary-f-str"]):
+            fixed.append({"kind": "unprocessable-file", "world_spec": {"files": good + BAD}, "include": inc, "plugins": False,
+                          "path_include": None, "extra_findings": {}, "sched": {"seed": 0, "policy": "fifo", "line_p": 0.0},
+                          "workers": None, "enum_seed": None})
         # two SAST codemods answering the same rule id (objects built from one result file are shared between them)
         by_rule = {}
         for c in G.codemods():
@@ -130,6 +139,9 @@ class C09(Check):
                     files.append(f)
             if any(c in W.DEP_CODEMODS for c in cids) or rng.random() < 0.2:
                 files += G.gen_manifests(rng, k=rng.choice([1, 1, 2, 3]))
+            if rng.random() < 0.2:
+                files.append({"path": G.rand_path(rng, used, ["pkg", "app", ""]), "raw": rng.choice(
+                    [{"t": "def broken(:\n    return f'x'\n"}, {"b": "/v8AZGVmIGYoeD1bXSk6IHBhc3MK"}, {"t": "x = 1\x00\n"}])})
             exp = {"kind": "ff-seq", "world_spec": {"files": files}, "include": list(dict.fromkeys(cids)), "plugins": False,
                    "path_include": None, "extra_findings": {}}
         else:
